@@ -107,7 +107,7 @@ def build(job):
             parts.append(C.Part("file", var["names"][i % 2], content, var["filename"], var["extra"]))
         else:
             parts.append(C.Part("field", var["names"][i % 2], content))
-    body = C.encode_form(parts, boundary, var["pre"], var["epi"], lb=job.get("lb", b"\r\n"), pad=job.get("pad", b""))
+    body = C.encode_form(parts, boundary, var["pre"], var["epi"], lb=job.get("lb", b"\r\n"), pad=job.get("pad", b""), eq=job.get("eq", b"="))
     return parts, body, allvars, boundary
 
 
@@ -282,6 +282,10 @@ def jobs(tier: str):
     for label, tmpl in (("field1+file1", [("field", 1, b"", b""), ("file", 1, b"", b"")]), ("file1", [("file", 1, b"", b"")])):
         out.append(dict(name=f"{label}/b0/plain/padded-delimiters", tmpl=tmpl, boundary=0, variant=0, entries=["decoder", "parse_stream", "parse_async_stream"],
                         cutmode="cut1", focus=False, empties=False, pad=b" \t" * 20, weight=60))
+    # Content-Disposition parameters spelled with white space around '=' (RFC 2045 lexical form)
+    for tag, eq in (("blank-before-equals", b" ="), ("blanks-around-equals", b" = ")):
+        out.append(dict(name=f"field1+file1/b0/plain/{tag}", tmpl=[("field", 1, b"", b""), ("file", 1, b"", b"")], boundary=0, variant=0,
+                        entries=["decoder", "parse_stream", "parse_async_stream", "wsgi_form", "asgi_form"], cutmode="cut1", empties=False, eq=eq, weight=30))
     out.append(dict(name="twin/file1", tmpl=[("file", 1, b"", b"")], boundary=0, variant=0, entries=["decoder", "wsgi_form"],
                     cutmode="whole", twin=True))
     return out
